@@ -14,12 +14,16 @@ from .world import World, simple_pool, render_config, default_general
 def file_text(w, kind, ports):
     pools = {'db2': simple_pool([['127.0.0.1', ports['b2'], 'primary']], pool_size=2)}
     if kind == 'A':
-        pools['db1'] = simple_pool([['127.0.0.1', ports['b1'], 'primary']], pool_size=2)
+        pools['db1'] = simple_pool([['127.0.0.1', ports['b1'], 'primary'], ['127.0.0.1', ports['b4'], 'replica']], pool_size=2)
+    elif kind == 'R':
+        pools['db1'] = simple_pool([['127.0.0.1', ports['b1'], 'replica'], ['127.0.0.1', ports['b4'], 'primary']], pool_size=2)
     elif kind == 'B':
         pools['db1'] = simple_pool([['127.0.0.1', ports['b3'], 'primary']], pool_size=2)
     elif kind == 'semantic_error':
         pools['db1'] = simple_pool([['127.0.0.1', ports['b3'], 'primary']], pool_size=2)
         pools['db1']['default_role'] = 'sometimes'
+    if 'db1' in pools:
+        pools['db1']['default_role'] = pools['db1'].get('default_role', 'primary')
     text = render_config(default_general(w.port, validate_config=True), pools)
     if kind == 'syntax_error':
         text = text.replace('[pools.db2]', '[pools.db2\npool_mode = = "transaction"', 1)
@@ -31,7 +35,7 @@ def run_scenario(item):
     out = {'id': item['id'], 'recs': [{'ev': 'reset', 'sc': item['id']}], 'notes': []}
     recs = out['recs']
     with World('rl') as w:
-        b = {n: w.backend(n) for n in ('b1', 'b2', 'b3')}
+        b = {n: w.backend(n) for n in ('b1', 'b2', 'b3', 'b4')}
         ports = {n: x.port for n, x in b.items()}
         w.port = W.free_port()
         w.start(text=file_text(w, 'A', ports), port=w.port)
@@ -155,7 +159,7 @@ def check_c14(prop, tier, seed):
     v = core.Verdict(prop, tier, seed)
     rng = random.Random(seed)
     v.assumptions = [
-        'one pool under test (definitions A: server b1, B: server b3, absent) and one untouched control pool; '
+        'one pool under test (definitions A: b1 primary + b4 replica, R: the same servers with roles swapped, B: server b3, absent; default_role primary) and one untouched control pool; '
         'invalid files: TOML syntax error, semantic error (unknown default_role)',
         'lock-step: a reload counts as completed when its reply (admin) or its last hook event (SIGHUP) was seen',
         'closing of the connections of a replaced pool is lazy in pgcat and therefore not required',
